@@ -10,7 +10,7 @@ CHECKS = {
         "design_ref": "DESIGN.md section 4, C09",
     },
     "C10": {
-        "technique": "exhaustive single-position splice of a hostile alphabet into a request template + Hypothesis-generated requests at three entry points on an in-memory socket; oracle: dichotomy (raised and zero bytes written | independent structural wire reader consumes the whole stream as exactly one request equal to the requested parts), RFC 9113 reference predicate for HTTP/2 header validity",
+        "technique": "exhaustive single-position splice of a hostile alphabet into a request template + Hypothesis-generated requests at three entry points on an in-memory socket; oracle: dichotomy (raised and zero bytes written | independent structural wire reader consumes the whole stream as exactly one request equal to the requested parts), RFC 9113 reference predicate for HTTP/2 header validity; plus coverage-guided atheris/libFuzzer campaigns whose target is Hypothesis' fuzz_one_input over the same strategy with the property's oracle inside",
         "text": "Every alphabet symbol is spliced at every position of method, URL parts, header names and values and generated mixes are sent through HTTPConnection.request, HTTPConnectionPool.urlopen (relative and absolute URL) and PoolManager.request; everything the sockets received is re-read by a structural parser written for this work and compared field by field with what was asked; HTTP2Connection.putheader is compared with an RFC 9113 validity predicate over exhaustive short names/values.",
         "note": "Trusts vlib/reqwire.py and vlib/fakenet.py. Target equality is metamorphic (percent-decoding equal, only RFC 3986 characters), not a re-implementation of the encoder.",
         "design_ref": "DESIGN.md section 4, C10",
@@ -22,7 +22,7 @@ CHECKS = {
         "design_ref": "DESIGN.md section 4, C11",
     },
     "C12": {
-        "technique": "Hypothesis-generated and bounded-exhaustive (payload, framing, coding stack, segmentation, read-call sequence + draining tail) cases over real http.client responses on an in-memory socket; oracle: round trip against the generator's own payload encoded by stdlib/zstandard compressors, size bounds per call",
+        "technique": "Hypothesis-generated and bounded-exhaustive (payload, framing, coding stack, segmentation, read-call sequence + draining tail) cases over real http.client responses on an in-memory socket; oracle: round trip against the generator's own payload encoded by stdlib/zstandard compressors, size bounds per call; plus coverage-guided atheris/libFuzzer campaigns whose target is Hypothesis' fuzz_one_input over the same strategy with the property's oracle inside",
         "text": "Responses are built from a payload by independent encoders (zlib, gzip, zstandard, chunked framing) and delivered in generated segment sizes; generated sequences of read/read1/readinto/stream/read_chunked/iteration calls with an explicit decode_content are run and the concatenation, per-call size bounds, end-of-body behaviour, preloaded .data and tell() are compared with the payload.",
         "note": "Trusts vlib/respgen.py encoders and vlib/fakenet.py. Known finding KF-C12-mix (reader-family switch on chunked bodies) is excluded by construction and counted.",
         "design_ref": "DESIGN.md section 4, C12",
@@ -34,7 +34,7 @@ CHECKS = {
         "design_ref": "DESIGN.md section 4, C13",
     },
     "C14": {
-        "technique": "bounded-exhaustive string enumeration + Hypothesis grammar/unicode generation; oracles: totality, normal-form predicates, idempotence round-trip, differential against an independent RFC 3986 splitter, CPU-time scaling",
+        "technique": "bounded-exhaustive string enumeration + Hypothesis grammar/unicode generation; oracles: totality, normal-form predicates, idempotence round-trip, differential against an independent RFC 3986 splitter, CPU-time scaling; plus coverage-guided atheris/libFuzzer campaigns whose target is Hypothesis' fuzz_one_input over the same strategy with the property's oracle inside",
         "text": "Every string up to length 5 (quick) / 6 (thorough) over a 13-symbol delimiter alphabet, bare and behind 'http://', plus tens of thousands of grammar-built hostile URLs and unicode strings, are parsed and compared with an independent reading; running time is measured on 26 repetition shapes up to 1e5 characters. Exploration: absence is shown only inside those bounds.",
         "note": "Trusts vlib/refurl.py (independent splitter), the idna package, CPython re; time clause uses CPU time with an absolute-and-relative threshold.",
         "design_ref": "DESIGN.md section 4, C14",
@@ -118,7 +118,7 @@ CHECKS = {
         "design_ref": "DESIGN.md section 4, C19",
     },
     "C20": {
-        "technique": "exhaustive hostile names/filenames (<=2 / <=3 symbols) in every input form + Hypothesis field lists; oracle: strict independent multipart parser and independently computed WHATWG escaping, byte-exact part headers and data",
+        "technique": "exhaustive hostile names/filenames (<=2 / <=3 symbols) in every input form + Hypothesis field lists; oracle: strict independent multipart parser and independently computed WHATWG escaping, byte-exact part headers and data; plus coverage-guided atheris/libFuzzer campaigns whose target is Hypothesis' fuzz_one_input over the same strategy with the property's oracle inside",
         "text": "Encoded bodies are parsed by a strict RFC 7578 parser using the boundary named in the returned content type; part count, order, the exact Content-Disposition/Content-Type/extra header lines and the data bytes are compared with what the field list specifies.",
         "note": "Trusts vlib/wire.py parse_multipart and stdlib mimetypes; names/values are UTF-8 encodable; data never contains the boundary (by construction).",
         "design_ref": "DESIGN.md section 4, C20",
